@@ -244,7 +244,7 @@ func (v *Vue) evalPipe(ctx VueContext, expr pipeExpr) (any, error) {
 				return nil, err
 			}
 			ok = true
-		} else if res, err := v.exprEval.Eval(expr.initial, ctx.stack.EnvMap()); err == nil && res != nil {
+		} else if res, err := v.exprEval.Eval(expr.initial, v.exprEnv(ctx, expr.initial)); err == nil && res != nil {
 			// ... or any other expression: n>3, !flag, items[i + 1]
 			val, ok = res, true
 		}
@@ -269,6 +269,41 @@ func (v *Vue) evalPipe(ctx VueContext, expr pipeExpr) (any, error) {
 	return val, nil
 }
 
+// exprEnv returns the environment an expression is evaluated in: the variables in scope and -
+// under names that no variable uses - the registered functions the expression mentions, so that
+// a call can stand inside an operator expression (double(n) + 1, isbig(n) && t, !isbig(n)) and
+// means there what it means as a whole expression or as a pipe segment.
+func (v *Vue) exprEnv(ctx VueContext, expression string) map[string]any {
+	env := ctx.stack.EnvMap()
+	if !strings.Contains(expression, "(") {
+		return env
+	}
+	for name, fn := range v.funcMap {
+		if _, isVar := env[name]; isVar || !strings.Contains(expression, name) {
+			continue
+		}
+		name, fn := name, fn
+		env[name] = func(args ...any) (any, error) {
+			res, err := v.callFunc(&ctx, fn, args...)
+			if err != nil {
+				return nil, &funcCallError{name: name, err: err}
+			}
+			return res, nil
+		}
+	}
+	return env
+}
+
+// funcCallError is the failure of a registered function called from inside an expression. The
+// positions that answer "false" or "nothing" to an expression they cannot evaluate still report it.
+type funcCallError struct {
+	name string
+	err  error
+}
+
+func (e *funcCallError) Error() string { return e.name + "(): " + e.err.Error() }
+func (e *funcCallError) Unwrap() error { return e.err }
+
 // evalSegment evaluates a single pipe segment (either filter or expression)
 // isFirst indicates if this is the first segment
 // fromInitial indicates if the input came from initial variable resolution
@@ -278,7 +313,7 @@ func (v *Vue) evalSegment(ctx VueContext, seg pipeSegment, input any, isFirst, f
 		return v.evalFilter(ctx, seg, input, isFirst, fromInitial)
 	case segmentExpr:
 		// Use expr library with . representing the input value
-		env := ctx.stack.EnvMap()
+		env := v.exprEnv(ctx, seg.expr)
 		if input != nil {
 			env["."] = input
 		}
